@@ -14,6 +14,7 @@ RULE = ("random histories (depth 10..30) of traffic events (payloads arriving on
         "line (status-derived attributes against the STATUS byte actually shifted out, A2). "
         "Non-trivial: a non-empty FIFO or latched flag was visited; distinct = distinct "
         "(mode, op history with lengths/pipes).")
+RULE += (" Later rounds added: pipe/irq_dr straight after read() must equal the radio's STATUS; the retry configuration changed after a transmission.")
 REQUIRED = {"read_leaves_fresh_status": 100, "status_attrs": 3000, "available": 300, "any": 300, "fifo": 1000, "read": 300,
             "clear_flags": 200, "flush": 200, "last_tx_arc": 100, "irq_line": 3000}
 BUDGET = {"quick": 480, "thorough": 900}
